@@ -20,14 +20,14 @@ RACE=""; grep -qi -- "-race" $D/README.md && RACE="-race"
 run_demo() { grep -v "^//go:build\|^// +build" $D/demo_test.go > $WT/$DEST/zz_seed_demo_test.go; (cd $WT && CGO_ENABLED=1 go test $RACE -vet=off -count=1 ./$DEST -run 'Seed|Demo|Test' 2>&1 | tail -3); local rc=${PIPESTATUS[0]}; rm -f $WT/$DEST/zz_seed_demo_test.go; }
 # clean: demo must pass
 grep -v "^//go:build\|^// +build" $D/demo_test.go > $WT/$DEST/zz_seed_demo_test.go
-(cd $WT && CGO_ENABLED=1 go test $RACE -vet=off -count=1 ./$DEST >/tmp/seed_clean.log 2>&1); CLEAN=$?
+(cd $WT && CGO_ENABLED=1 go test $RACE -vet=off -count=1 -run "Seed|Demo" ./$DEST >/tmp/seed_clean.log 2>&1); CLEAN=$?
 rm -f $WT/$DEST/zz_seed_demo_test.go
 # with change: build + suite (without demo) green, demo fails
 (cd $WT && git apply $D/patch.diff) || { echo "patch does not apply in worktree"; exit 2; }
 (cd $WT && go build ./... >/tmp/seed_build.log 2>&1); BUILD=$?
 (cd $WT && go test -vet=off -count=1 . ./parser ./cmd/pql >/tmp/seed_suite.log 2>&1); SUITE=$?
 grep -v "^//go:build\|^// +build" $D/demo_test.go > $WT/$DEST/zz_seed_demo_test.go
-(cd $WT && CGO_ENABLED=1 go test $RACE -vet=off -count=1 ./$DEST >/tmp/seed_demo.log 2>&1); DEMO=$?
+(cd $WT && CGO_ENABLED=1 go test $RACE -vet=off -count=1 -run "Seed|Demo" ./$DEST >/tmp/seed_demo.log 2>&1); DEMO=$?
 rm -f $WT/$DEST/zz_seed_demo_test.go
 (cd $WT && git checkout -q -- .)
 echo "seed $ID: build=$BUILD suite=$SUITE demo_with_change=$DEMO (want !=0) demo_clean=$CLEAN (want 0)"
